@@ -371,6 +371,9 @@ pub mod ecma {
             pub fn new_private(sym: Atom, span: Span) -> Ident { Ident::new(sym, span, SyntaxContext::empty().apply_mark(Mark::new())) }
             pub fn new_no_ctxt(sym: Atom, span: Span) -> Ident { Ident::new(sym, span, SyntaxContext::empty()) }
             pub fn to_id(&self) -> Id { (self.sym, self.ctxt) }
+            /// real: `$`, `_`, ASCII letter, or Unicode ID_Start.  Model: non-ASCII characters count as ID_Start / ID_Continue.
+            pub fn is_valid_start(c: char) -> bool { c == '$' || c == '_' || c.is_ascii_alphabetic() || c > '\x7F' }
+            pub fn is_valid_continue(c: char) -> bool { c == '$' || c == '_' || c == '\u{200c}' || c == '\u{200d}' || c.is_ascii_alphanumeric() || c > '\x7F' }
         }
         impl IdentName { pub fn new(sym: Atom, span: Span) -> IdentName { IdentName { span, sym } } }
         impl From<IdentName> for Ident { fn from(i: IdentName) -> Self { Ident { span: i.span, ctxt: SyntaxContext::empty(), sym: i.sym, optional: false } } }
